@@ -234,24 +234,29 @@ pub fn run_once(cfg: &RunCfg, ops: &[Op], base: &str) -> Outcome {
 	let mut op_seen = usize::MAX;
 	let mut op_start = std::time::Instant::now();
 	let mut last_rss_check = std::time::Instant::now();
+	let rss_now = || -> u64 {
+		std::fs::read_to_string("/proc/self/statm")
+			.ok()
+			.and_then(|s| s.split_whitespace().nth(1).and_then(|x| x.parse::<u64>().ok()))
+			.unwrap_or(0) * 4096
+	};
+	// growth during this run (a worker process that has executed thousands of runs, some of
+	// which leaked their handle after a panic, has a large footprint of its own)
+	let rss_at_start = rss_now();
 	while !h.is_finished() {
 		let cur = CURRENT_OP.load(Ordering::Relaxed);
 		// memory guard: a call that allocates without bound is reported before the machine runs
 		// out of memory (no run of the generator needs more than a few hundred MiB)
 		if last_rss_check.elapsed().as_millis() >= 500 {
 			last_rss_check = std::time::Instant::now();
-			let rss_pages: u64 = std::fs::read_to_string("/proc/self/statm")
-				.ok()
-				.and_then(|s| s.split_whitespace().nth(1).and_then(|x| x.parse().ok()))
-				.unwrap_or(0);
-			if rss_pages * 4096 > RSS_LIMIT_BYTES && cur != usize::MAX {
+			if rss_now().saturating_sub(rss_at_start) > RSS_LIMIT_BYTES && cur != usize::MAX {
 				let deferred = exec::DEFERRAL_SEEN.load(Ordering::SeqCst);
 				return Outcome {
 					result: RunResult {
 						violations: vec![Violation {
 							prop: if deferred { "C11".to_string() } else { crash_prop_for(&cfg.scenario).to_string() },
 							class: if deferred { "after-deferral:no-return".to_string() } else { "no-return".to_string() },
-							detail: format!("the call of op {cur} (or the final reopen after it) keeps allocating: resident memory above {} GiB", RSS_LIMIT_BYTES >> 30),
+							detail: format!("the call of op {cur} (or the final reopen after it) keeps allocating: resident memory grew by more than {} GiB during this run", RSS_LIMIT_BYTES >> 30),
 							op_index: cur,
 						}],
 						stats: Default::default(),
